@@ -416,3 +416,26 @@ def err_propagates(I, fn, is_callee):
     if ces:
         return False, "a path continues although the call returned Err: %s" % F.show_asg(ces[0])[:200], n_
     return True, "Err => exit", n_
+
+
+def mir_calls_deep(crate, body, pred, _depth=0):
+    """Like mir_calls, but a call of a local function the rules do not know (a helper introduced by a later change)
+    stands for the calls inside that helper: it is reported once per matching call in the helper (transitively), at the
+    block of the helper call in `body`."""
+    from interp import known_fns
+    out = []
+    kn = known_fns(crate.name)
+    for i, b in mir_blocks(body).items():
+        t = b["term"]
+        if t["k"] != "Call":
+            continue
+        c = facts_norm(t.get("inst") or t.get("callee") or "")
+        c0 = facts_norm(t.get("callee") or "")
+        if pred(c) or pred(c0):
+            out.append((i, t))
+            continue
+        tgt = c if c in crate.bodies else (c0 if c0 in crate.bodies else None)
+        if tgt and tgt not in kn and "mir" in crate.bodies[tgt] and _depth < 4:
+            for _ in mir_calls_deep(crate, crate.bodies[tgt], pred, _depth + 1):
+                out.append((i, t))
+    return out
